@@ -1,3 +1,92 @@
-(* C05 — placeholder while the proofs are being written. *)
+(* C05 — genum: JSON/text/YAML codecs round-trip values and reject all else.
+   Property theorems only; every proof is `exact <lemma of GEnumProofs>`.
+
+   The three decoders of the emitted code are modelled on per-document views: what
+   encoding/json, yaml.v3 and strconv report about the document (its string content, its
+   uint64/int64 reading, the result of a trait type's own unmarshaler).  The decoder's own logic —
+   which readings it tries, in which order, under which guards — is the model.
+   `reading … x` = x is a faithful reading of the document; `rejectable d o t x` = x neither names
+   a constant (case-insensitively under -caseInsensitive) nor is a parsable trait constant.      *)
+From Coq Require Import String ZArith List Bool.
+From GT Require Import Base.GEnumStr.
 From GT Require Import GEnumModel GEnumProofs.
-Theorem C05_placeholder : True. Proof. exact I. Qed.
+Import ListNotations.
+Local Open Scope string_scope.
+Local Open Scope list_scope.
+Local Open Scope Z_scope.
+
+(* the JSON, text and YAML encodings of v are the primary name of v *)
+Theorem C05_encode_json : forall d o t, wf_defn d -> gen d o = Built t ->
+  forall v, encode_json t v = quote (string_spec d v).
+Proof. exact encode_json_spec. Qed.
+Theorem C05_encode_text : forall d o t, wf_defn d -> gen d o = Built t ->
+  forall v, encode_text t v = string_spec d v.
+Proof. exact encode_text_spec. Qed.
+Theorem C05_encode_yaml : forall d o t, wf_defn d -> gen d o = Built t ->
+  forall v, encode_yaml t v = string_spec d v.
+Proof. exact encode_yaml_spec. Qed.
+
+(* decoding each of them yields v again (view soundness: the library's string reading of the
+   encoded document is the emitted name — measured for every round trip by the farm) *)
+Theorem C05_roundtrip_json : forall d o t, wf_defn d -> gen d o = Built t ->
+  forall v jv, In v (values_spec (d_consts d)) ->
+  jv_string jv = Some (sem_string t v) -> decode_json t jv = Some v.
+Proof. exact roundtrip_json. Qed.
+Theorem C05_roundtrip_text : forall d o t, wf_defn d -> gen d o = Built t ->
+  forall v tv, In v (values_spec (d_consts d)) ->
+  tv_text tv = sem_string t v -> decode_text t tv = Some v.
+Proof. exact roundtrip_text. Qed.
+Theorem C05_roundtrip_yaml : forall d o t, wf_defn d -> gen d o = Built t ->
+  forall v yv, In v (values_spec (d_consts d)) ->
+  yv_value yv = sem_string t v -> decode_yaml t yv = Some v.
+Proof. exact roundtrip_yaml. Qed.
+
+(* input none of whose faithful readings is a defined name or a parsable trait value is rejected
+   by all three decoders — never silently mapped to some enum value *)
+Theorem C05_reject_json : forall d o t jv, gen d o = Built t ->
+  (forall x, reading (jv_string jv) (jv_u64 jv) (jv_i64 jv) (jv_native jv) t x -> rejectable d o t x) ->
+  decode_json t jv = None.
+Proof. exact reject_json_readings. Qed.
+Theorem C05_reject_text : forall d o t tv, gen d o = Built t ->
+  (forall x, reading (Some (tv_text tv)) None None (tv_native tv) t x -> rejectable d o t x) ->
+  decode_text t tv = None.
+Proof. exact reject_text_readings. Qed.
+Theorem C05_reject_yaml : forall d o t yv, gen d o = Built t ->
+  (forall x, reading (Some (yv_value yv)) (yv_u64 yv) (yv_i64 yv) (yv_native yv) t x -> rejectable d o t x) ->
+  decode_yaml t yv = None.
+Proof. exact reject_yaml_readings. Qed.
+
+(* integer readings reach Parse<T> unchanged for the 64-bit trait kinds (narrower trait types
+   are converted with Go's wrap-around, conv_int) *)
+Theorem C05_no_narrowing_64 : forall b x,
+  (In b [BUntypedInt; BInt; BInt64] -> - 2 ^ 63 <= x < 2 ^ 63 -> conv_int b x = x) /\
+  (In b [BUint; BUint64] -> 0 <= x < 2 ^ 64 -> conv_int b x = x).
+Proof. exact conv_int_id_64. Qed.
+
+(* non-vacuity of the hypotheses + the pinned code (before fix C05-yaml-numeric-fallback-guards,
+   strconv guards `err != nil`): for P0/P1/P2 with parsable integer trait Code = 0/7/9 the YAML scalar
+   `garbage` decoded to P0 and `7` was rejected; the repaired decoder rejects / accepts them *)
+Theorem C05_reject_yaml_orig_refuted :
+  exists t, gen yw_defn yw_opts = Built t
+            /\ decode_yaml_orig t yw_garbage = Some 0 /\ decode_yaml_orig t yw_seven = None
+            /\ decode_yaml t yw_garbage = None /\ decode_yaml t yw_seven = Some 1.
+Proof. exact decode_yaml_orig_refuted. Qed.
+
+Example C05_example_wf : wf_defn yw_defn.
+Proof.
+  split; [unfold ty_ok; simpl; split; discriminate|]. split.
+  - repeat constructor.
+  - repeat constructor; simpl; intuition discriminate.
+Qed.
+
+Print Assumptions C05_encode_json.
+Print Assumptions C05_encode_text.
+Print Assumptions C05_encode_yaml.
+Print Assumptions C05_roundtrip_json.
+Print Assumptions C05_roundtrip_text.
+Print Assumptions C05_roundtrip_yaml.
+Print Assumptions C05_reject_json.
+Print Assumptions C05_reject_text.
+Print Assumptions C05_reject_yaml.
+Print Assumptions C05_no_narrowing_64.
+Print Assumptions C05_reject_yaml_orig_refuted.
